@@ -34,6 +34,12 @@ CHECKS = {
  "C10": ("fault_enumeration", "man-in-the-middle response mutation table with ground-truth oracle on success",
          "A typed MITM in front of the honest in-repo host rewrites every field of every host->renter message of every renter RPC with {bit flips, zero, max, +-1, truncate, extend, duplicate, swap with another exchange, re-sign with the real host key after altering the signed object, coherent forgeries, RPCError injection, cuts, silence}; whenever the client call reports success the result is compared with ground truth (sector bytes, roots, list model, locally computable successor revision, host signature over the returned object, cost bound); every call must return by its deadline. The table is enumerated deterministically.",
          "Errors are always acceptable; unauthenticated-by-design RPCs (settings, balance) are liveness-only; RPCLatestRevision is a known finding (KF-C10-1).", "§3 C10"),
+ "C11": ("fault_enumeration", "scripted Byzantine gateway peer (61-row fault table) against a real syncer with an auditing ChainManager proxy, bounded-progress and ban oracles, race detector",
+         "One real victim syncer on its own loopback address with one or two scripted Byzantine peers (and optionally an honest peer holding the heavier valid chain): every victim-issued RPC (SendHeaders, SendV2Blocks, SendCheckpoint, SendTransactions) and victim-served relay is answered from a 61-row corruption table x position x regime (below/above the require height, instant sync) x peer mix; after every manager call and every 50 ms the victim's tip must be a chain-valid generated block with state byte-equal to the pure replay and non-decreasing work; no crash; with an honest peer connected the honest tip must be reached within the bound; provable offences must reach PeerStore.Ban.",
+         "Bounded-liveness restatement (60 s + 35 s per unanswered SendHeaders; unchanged tree: seconds); loopback networking; volume-based exhaustion and eclipse attacks out of scope.", "§3 C11"),
+ "C12": ("exploration", "cluster convergence monitoring with tip trajectories, final audits and the race detector",
+         "Clusters of 2-6 honest nodes hold different branches of one generated tree (fork points around the hardfork heights, branch lengths around the history-sample spacing and the 100-block request split, checkpoint-bootstrapped nodes, MaxSendBlocks 1/7/100, peer caps 1/2/8, line/star/ring/complete topologies, PRNG connection order, jitter): within the bound all tips must equal the unique sufficiently heavier valid branch, every sampled trajectory has non-decreasing work, every node passes the final chain audit.",
+         "Bounded-liveness restatement (90 s; unchanged tree 0.5-10 s); assignments are generated with exactly one sufficiently heavier branch (otherwise no verdict).", "§3 C12"),
  "C13": ("exploration", "reference-model monitoring of proof rebasing against pure ledgers along path(from->to)",
          "For PRNG pairs of applied indices on the same or different forks of generated trees and v2 sets valid at 'from' (ephemeral chains, siafund spends, contract formation/revision/renewal/storage proof/expiration), the result of UpdateV2TransactionSet is compared with the expectation computed from the pure ledgers: input minus confirmed in order, each parent element equal to the ledger's leaf index and proof at 'to', ephemeral inputs that became confirmed carry the confirmed element, errors (never panics) for corrupted proofs/leaf indices/unknown bases and for elements that never existed on the target chain; V2TransactionSet ordering/basis/acceptance; caller memory; paths of 1..160 blocks.",
          "Only indices that were the best tip at some moment are used as from/to (others carry header-only states); an element re-created with the same id on the other fork may be refused (no verdict); spent-at-target gives no verdict.", "§3 C13"),
